@@ -26,12 +26,19 @@ def play_history(rng, length=40):
     mel = [extreme_ins(rng, p, 10 + p) for p in range(6)]
     per = [extreme_ins(rng, k, 100 + k) for k in (35, 36, 38, 60, 127)]
     banks = [{"p": 0, "msb": 0, "lsb": 0, "ins": mel}, {"p": 1, "msb": 0, "lsb": 0, "ins": per}]
+    # accepted bank sets WITHOUT the default bank 0:0 of a kind (the note-on lookup falls back bank -> LSB-less bank -> 0:0 and
+    # must cope with finding nothing): only melodic banks, the only kit at LSB 1, the only melodic bank at MSB 1, only a kit
+    layout = rng.choice([0, 0, 0, 0, 1, 2, 3, 4])
+    if layout == 1: banks = banks[:1]
+    elif layout == 2: banks[1]["lsb"] = 1
+    elif layout == 3: banks[0]["msb"] = 1
+    elif layout == 4: banks = banks[1:]
     h = [{"e": "Init", "rate": rng.choice([44100, 8000]), "chips": rng.choice([1, 2]), "lim": rng.choice([0, 3, 6]), "mch": [0, 9],
           "arp": rng.choice([0, 1]), "alloc": rng.choice([-1, 0, 1, 2]), "banks": banks, "emu": rng.choice([0, 0, 2, 4]),
           # every volume model: the table-driven ones (DMX, Win9x) index tables with velocity (+ the instrument's velocity
           # offset), channel volume and expression
           "vm": rng.choice([0, 1, 2, 3, 4, 5]), "frb": rng.choice([0, 1]), "smod": rng.choice([0, 1])}]
-    if rng.random() < 0.5:
+    if rng.random() < 0.5 and layout in (0, 2, 3):
         h.append({"e": "OpenBank"})          # the same instruments through a generated WOPN file
     for _ in range(length):
         r = rng.random(); ch = rng.choice([0, 0, 9])
@@ -40,7 +47,8 @@ def play_history(rng, length=40):
                 h += [{"e": "CC", "ch": ch, "n": 7, "v": 127}, {"e": "CC", "ch": ch, "n": 11, "v": 127}]
             h.append({"e": "NoteOn", "ch": ch, "k": rng.choice([0, 1, 35, 36, 38, 60, 126, 127]), "v": rng.choice([1, 100, 124, 126, 127])})
         elif r < 0.38: h.append({"e": "NoteOff", "ch": ch, "k": rng.choice([0, 35, 60, 127])})
-        elif r < 0.48: h.append({"e": "Patch", "ch": 0, "p": rng.randrange(6)})
+        elif r < 0.44: h.append({"e": "Patch", "ch": 0, "p": rng.randrange(6)})
+        elif r < 0.48: h.append({"e": "CC", "ch": ch, "n": rng.choice([0, 32]), "v": rng.choice([0, 1, 2, 127])})   # bank select (existing / absent banks)
         elif r < 0.58: h.append({"e": "Bend", "ch": ch, "v": rng.choice([0, 1, 8192, 16383])})
         elif r < 0.66:   # bend range via RPN 0
             h += [{"e": "CC", "ch": ch, "n": 101, "v": 0}, {"e": "CC", "ch": ch, "n": 100, "v": 0},
